@@ -33,6 +33,7 @@ type c06resState struct {
 	res     int
 	cur     int // current version at the origin
 	pending int // status to answer the next request with (0 = normal)
+	seen    int // origin requests received since the scripted error was armed
 }
 
 type c06world struct {
@@ -85,8 +86,19 @@ func (w *c06world) handler(rw http.ResponseWriter, q *http.Request, rec *rig.Ori
 	}
 	pending := st.pending // stays in force for every origin request of the current client exchange
 	cur, kind, res := st.cur, st.kind, st.res
+	if pending != 0 {
+		st.seen++
+	}
+	nth := st.seen
 	w.mu.Unlock()
 	rec.SetNote(id)
+	if pending != 0 && nth > 1 && (q.Header.Get("If-None-Match") != "" || q.Header.Get("If-Modified-Since") != "") && !strings.Contains(q.Header.Get("If-None-Match")+q.Header.Get("If-Modified-Since"), "sentinel") {
+		// a second request of the same exchange that still carries validators although the revalidation has been
+		// answered: a real origin answers a matching validator with 304 (the client, who asked unconditionally, must
+		// never see that)
+		rw.WriteHeader(304)
+		return
+	}
 	if pending != 0 {
 		rw.Header().Set("Content-Type", "text/plain")
 		rw.Header().Set("X-Origin-Error", fmt.Sprint(pending))
@@ -182,6 +194,7 @@ func c06hist(r *core.Recorder, p *rig.ProxyRig, o *rig.Origin, w *c06world, mode
 		case "E4", "E5":
 			w.mu.Lock()
 			st.pending = map[string]int{"E4": 404, "E5": 500}[op]
+			st.seen = 0
 			w.mu.Unlock()
 			trace = append(trace, step)
 			continue
